@@ -38,7 +38,7 @@ QUOTA = {'quick': 120, 'thorough': 2500}
 KASSIGN = {'quick': 6, 'thorough': 60}
 REQUIRED = {'quick': {'evaluations': 1500, 'decodes_compiled_compared': 1500, 'decodes_reloaded_compared': 1500,
                       'encodes_compared': 1000, 'tabled_programs': 150, 'history_steps': 300, 'evictions_seen': 20,
-                      'loop_programs': 500, 'operator_programs': 300, 'marker_programs': 100, 'version_collision_steps': 500},
+                      'loop_programs': 500, 'operator_programs': 300, 'marker_programs': 100, 'version_collision_steps': 500, 'cli_compile_runs': 40},
             'thorough': {'evaluations': 40000, 'decodes_compiled_compared': 40000, 'decodes_reloaded_compared': 40000,
                          'encodes_compared': 25000, 'tabled_programs': 1200, 'history_steps': 8000, 'evictions_seen': 500,
                          'loop_programs': 12000, 'operator_programs': 8000, 'marker_programs': 3000}}
@@ -200,6 +200,36 @@ def compare_message(ctx, decs, encs, b, ids, spec, do_encode=True):
                         % (name, w, o[1:] if o[0] == 'exc' else len(o[1]), eb[1:] if eb[0] == 'exc' else len(eb[1])), spec)
 
 
+def cli_compile(ctx, ids, mtv, b, spec):
+    """`pybufrkit compile <ids>` prints a compiled template; loaded back it must behave like the interpreted decoder"""
+    from mon.cli import run_cli
+    from pybufrkit.decoder import Decoder
+    from pybufrkit.templatecompiler import CompiledTemplateManager, loads_compiled_template
+    ctx.count('cli_compile_runs')
+    so, se, exc, code = run_cli(['compile', ','.join('%06d' % i for i in ids), '--master-table-version', str(mtv)])
+    if exc is not None or se.strip():
+        ctx.violate('cli-compile-fails', 'pybufrkit compile failed: %r %s' % (exc, se[:120]), dict(spec, cli='compile'))
+        return
+    try:
+        ct = loads_compiled_template(so)
+    except Exception as e:
+        ctx.violate('cli-compile-output-unloadable:%s' % type(e).__name__, 'output of pybufrkit compile cannot be loaded: %r' % (e,),
+                    dict(spec, cli='compile'), exc=e)
+        return
+
+    class Fixed(CompiledTemplateManager):
+        def get_or_compile(self, template, table_group):
+            return ct
+    d = Decoder(compiled_template_cache_max=1)
+    d.compiled_template_manager = Fixed(1)
+    base = outcome(lambda: snap(Decoder().process(b)))
+    o = outcome(lambda: snap(d.process(b)))
+    ctx.evaluated((b.hex(), 'cli-compile'), True)
+    if o != base and not (o[0] == 'exc' and base[0] == 'exc' and o[1] == base[1]):
+        ctx.violate('decode/cli-compiled-differs/%s/%s' % (why_differs(o, base), feature_sig(ids)),
+                    'decoding with the template printed by `pybufrkit compile` differs from the interpreted decode', dict(spec, cli='compile'))
+
+
 def count_delayed(ids, D, depth=0):
     n = 0
     for i in ids:
@@ -250,6 +280,8 @@ def run_program(ctx, decs, encs, ids, B, D, mtv, origin, name=None, K=None, loca
         spec = dict(origin=origin, name=name, ids=ids if len(ids) < 60 else ids[:60], mtv=mtv, counts=list(counts), bits=bits,
                     compressed=comp, hex=msg.bytes.hex())
         compare_message(ctx, decs, encs, msg.bytes, msg.ids, spec, do_encode=(ai % 2 == 0))
+        if origin == 'shape' and ai == 0 and not local:
+            cli_compile(ctx, ids, mtv, msg.bytes, spec)
     return produced
 
 
